@@ -47,7 +47,18 @@ def crystal_spec(draw, lattices=("cubic_P", "cubic_I", "cubic_F", "ortho_P", "he
     coord = st.sampled_from(_FRAC) | gen.floats(0.0, 0.999).map(lambda v: round(v, 3))
     pos = draw(st.lists(st.tuples(coord, coord, coord), min_size=n, max_size=n, unique=True))
     basis = [[draw(st.sampled_from(species)), *p] for p in pos]
-    return {"lattice": lattice, "a": a, "b": b, "c": c, "basis": basis}
+    # two atoms on one site are not a crystal: keep only basis atoms whose centring
+    # translates do not coincide with (a translate of) an atom kept before
+    translations = CENTERING_TRANSLATIONS[lattice.split("_")[1]]
+    taken, kept = set(), []
+    for atom in basis:
+        orbit = {tuple(round((x + t) % 1.0, 6) % 1.0 for x, t in zip(atom[1:], tr)) for tr in translations}
+        if len(orbit) == len(translations) and not (orbit & taken):
+            taken |= orbit
+            kept.append(atom)
+    if not kept:
+        kept = [[basis[0][0], 0.0, 0.0, 0.0]]
+    return {"lattice": lattice, "a": a, "b": b, "c": c, "basis": kept}
 
 
 CENTERING_TRANSLATIONS = {
